@@ -44,7 +44,8 @@ pub fn flatten(tree: &ast::UseTree, prefix: &[String], out: &mut Vec<Leaf>) {
             }
             if let (Some(a), Some(last)) = (&alias, path.last()) {
                 if a == last {
-                    // `a as a` is not normalised by rustfmt; keep as is
+                    // `x as x` binds the same name as `x`
+                    alias = None;
                 }
             }
             if alias.as_deref() == Some("") {
